@@ -18,7 +18,7 @@ RULE = (
     "e-, e+, nu, nubar) x scheme/NfFF (ZM-VFNS, FFNS/FFN0/FONLL-FFNS/FONLL-FFN0 with NfFF 3-5) x PTO 0-3 x TMC 0-3. "
     "thorough: the sub-lattices listed under 'enumerated' are enumerated completely (one valid and one invalid request "
     "per cell, kinematics derived from the cell), the rest is sampled by Hypothesis; quick: Hypothesis sample. Each cell is "
-    "run with valid kinematics (interior, on a node, x=1, large/small Q2) and with one invalid request (x<=0, x>1, Q2<=0, x "
+    "run with two valid kinematic points in one request (interior, on a node, x=1, large/small Q2; often in different nf regions; one of the four scale-variation switch settings per cell) and with one invalid request (x<=0, x>1, Q2<=0, x "
     "below the grid, NaN). Oracle (validity predicate): valid request -> all values and errors finite, or an explicit "
     "rejection (a `raise` of ValueError/NotImplementedError/RuntimeError); never an internal error (KeyError, IndexError, "
     "AttributeError, TypeError, ImportError, ZeroDivisionError, ...), never NaN/inf; invalid request -> always an explicit "
@@ -26,7 +26,8 @@ RULE = (
 )
 ASSUMPTIONS = [
     "one small fixed grid per cell family: the property is about configurations, not interpolation",
-    "scale variations off (not part of the documented lattice of this property); they are exercised by C05/C07/C11/C12",
+    "the scale-variation switches are not an axis of the documented lattice: each cell gets one of the four on/off combinations, "
+    "derived from its hash, and two valid points which may lie in different nf regions of one run",
     "explicit rejection = innermost frame is a raise statement of ValueError/NotImplementedError/RuntimeError (in yadism or in "
     "LeProHQ/eko/adani below it)",
 ]
@@ -34,7 +35,7 @@ BUDGET = {"quick": {"examples": 3200, "wall": 420}, "thorough": {"examples": 240
 MANDATORY = {
     t: ["valid", "invalid:x<=0", "invalid:x>1", "invalid:Q2<=0", "invalid:below-grid", "invalid:nan", "tmc:0", "tmc:1", "tmc:2", "tmc:3",
         "scheme:ZM-VFNS", "scheme:FFNS", "scheme:FFN0", "scheme:FONLL-FFNS", "scheme:FONLL-FFN0", "xs", "heavylight", "outcome:finite",
-        "outcome:rejected"]
+        "outcome:rejected", "scale-variations-on", "run-spans-several-nf"]
     for t in ("quick", "thorough")
 }
 SHRINK = {"quick": False, "thorough": False}
@@ -53,7 +54,9 @@ def cell_case(kind, hv, proc, sch, pto, tmc, salt=0):
     q2s = [1.2, 3.0, 10.0, 30.0, 300.0, 1e4, 2.2801, 24.2064]
     valid = [{"x": xs[h % 8], "Q2": q2s[(h // 8) % 8]}, {"x": xs[(h // 64) % 8], "Q2": q2s[(h // 512) % 8]}]
     inv = INVALID[(h // 4096) % 5]
-    return {"cell": [kind, hv, list(proc), list(sch), pto, tmc], "valid": valid, "invalid": inv, "inv_value": (h // 20480) % 3, "y": [0.2, 0.5, 1.0][(h // 7) % 3]}
+    # scale-variation switches are not a documented axis of the product: they ride along, derived from the cell hash
+    sv = [[False, False], [True, True], [False, True], [True, False]][(h // 11) % 4]
+    return {"cell": [kind, hv, list(proc), list(sch), pto, tmc], "valid": valid, "invalid": inv, "inv_value": (h // 20480) % 3, "y": [0.2, 0.5, 1.0][(h // 7) % 3], "sv": sv}
 
 
 def lattice(tier):
@@ -122,7 +125,8 @@ def invalid_point(cls, i):
 
 def build(case, kins):
     kind, hv, (process, proj), (scheme, nfff), pto, tmc = case["cell"]
-    th = cards.theory(PTO=pto, FNS=scheme, NfFF=nfff, TMC=tmc)
+    ren, fact = case.get("sv", [False, False])
+    th = cards.theory(PTO=pto, FNS=scheme, NfFF=nfff, TMC=tmc, RenScaleVar=ren, FactScaleVar=fact)
     ob = cards.observables(prDIS=process, ProjectileDIS=proj, interpolation_xgrid=list(GRID), interpolation_polynomial_degree=3)
     name = f"{kind}_{hv}"
     if kind in configs.XS_KINDS:
@@ -153,6 +157,12 @@ def check_case(case):
     if hv.endswith("light") and hv != "light":
         v.label("heavylight")
     v.nontrivial = True
+    if any(case.get("sv", [False, False])):
+        v.label("scale-variations-on")
+    if True:
+        nfs = {cards.nf_ref(cards.theory(FNS=scheme, NfFF=nfff), k["Q2"]) for k in case["valid"] if k["Q2"] > 0}
+        if len(nfs) > 1:
+            v.label("run-spans-several-nf")
     # ---- valid request
     th, ob, name = build(case, case["valid"])
     try:
